@@ -141,6 +141,15 @@ def targeted_mutants(doc_small, doc_shipped):
         "mixed comparison": "1 == \"a\"", "unknown function": "nosuch(1)", "unknown field": "request.nosuch == 1", "division by zero": "1 / 0 == 1",
         "index out of range": "split(request.target.host, \".\")[9] == \"x\"", "invalid regex": "request.target.host =~ \"(\"", "array compare": "[1] == [1]",
     }
+    # let bindings: self / mutual references must be rejected (not recursed into), shadowing must evaluate in the outer scope
+    bad_rules.update({
+        "let self reference": "let a = a in a == 1", "let self reference through a function": "let a = to_string(a) in a == \"1\"",
+        "let mutual reference": "let a = b; b = a in a == 1", "let forward reference": "let a = b; b = 1 in a == 1",
+        "let cycle through an inner let": "let a = 1; b = a in let a = b in a == 1",
+        "let shadowing that uses the outer binding": "let p = request.target.port in let p = p + 1 in p > 1",
+        "let shadowing twice": "let p = 1 in let p = p + 1 in let p = p * 2 in p == 4",
+        "let inside function argument": "to_string(let a = request.target.port in a + 1) == \"81\"",
+    })
     for rname, f in bad_rules.items():
         m("rule filter: " + rname, doc_small, lambda d, f=f: d["rules"].insert(0, {"filter": f, "target": "direct"}), "rule")
     for depth in (10, 100, 1000, 10000, 100000):
